@@ -489,6 +489,7 @@ func (e *Engine) fireLocal(st *State, th *Thread, op *VisOp, selCase int) {
 		e.deliver(st, th, op, nil)
 	case VRecv:
 		o := st.objW(op.Ch.Obj)
+		e.timerFired(st, o)
 		if len(o.Buf) > 0 {
 			v := o.Buf[0]
 			o.Buf = append([]Value(nil), o.Buf[1:]...)
@@ -512,6 +513,7 @@ func (e *Engine) fireLocal(st *State, th *Thread, op *VisOp, selCase int) {
 			e.deliver(st, th, op, selectResult(op, selCase, false, nil))
 		} else {
 			o := st.objW(c.Ch.Obj)
+			e.timerFired(st, o)
 			if len(o.Buf) > 0 {
 				v := o.Buf[0]
 				o.Buf = append([]Value(nil), o.Buf[1:]...)
@@ -1110,4 +1112,12 @@ func (e *Engine) fireInlineSafe(st *State, th *Thread, op *VisOp) {
 		}
 	}()
 	e.fireInline(st, th, op)
+}
+
+// timerFired: a receive from a timer channel happens no earlier than the timer's deadline.
+func (e *Engine) timerFired(st *State, o *Object) {
+	if o.TimerAt == nil || len(o.Buf) == 0 {
+		return
+	}
+	e.advanceClock(st, o.TimerAt)
 }
